@@ -54,6 +54,15 @@ func bases() []base {
 	add("zero-window-overshoot", tcpx.Scenario{Bytes: [2]int{20000, 0}, RcvBuf: [2]int{0, 4096}, PauseRead: [2]int{1, 0}, PauseMs: [2]int{3000, 0}, MaxChunk: [2]int{1000, 0}, Close: "AB"})
 	add("zero-window-reverse", tcpx.Scenario{Bytes: [2]int{0, 30000}, RcvBuf: [2]int{4096, 0}, PauseRead: [2]int{0, 1}, PauseMs: [2]int{0, 2000}, Close: "BA"})
 	add("zero-window-both", tcpx.Scenario{Bytes: [2]int{15000, 15000}, RcvBuf: [2]int{4096, 4096}, PauseRead: [2]int{1, 1}, PauseMs: [2]int{1500, 2500}, Close: "sim"})
+	// the application enlarges its receive buffer while the window is shut, then reads on
+	add("zero-window-buffer-enlarged", tcpx.Scenario{Bytes: [2]int{40000, 0}, RcvBuf: [2]int{0, 4096}, PauseRead: [2]int{1, 0}, PauseMs: [2]int{3000, 0}, GrowRcvBuf: [2]int{65536, 0}, Close: "AB"})
+	add("zero-window-buffer-enlarged-reverse", tcpx.Scenario{Bytes: [2]int{0, 40000}, RcvBuf: [2]int{4096, 0}, PauseRead: [2]int{0, 1}, PauseMs: [2]int{0, 2000}, GrowRcvBuf: [2]int{0, 1 << 20}, MaxChunk: [2]int{0, 1000}, Close: "BA"})
+	// the right edge of the receive window crosses 2^32 (2^31) while its left edge is still below
+	u := func(v uint32) *uint32 { return &v }
+	add("zero-window-edge-crosses-2^32", tcpx.Scenario{Bytes: [2]int{30000, 0}, RcvBuf: [2]int{0, 4096}, ISS: u(1<<32 - 6001), Close: "AB"})
+	add("zero-window-edge-crosses-2^32-30k", tcpx.Scenario{Bytes: [2]int{120000, 0}, RcvBuf: [2]int{0, 30000}, ISS: u(1<<32 - 40001), Close: "AB"})
+	add("zero-window-edge-crosses-2^31", tcpx.Scenario{Bytes: [2]int{30000, 0}, RcvBuf: [2]int{0, 4096}, ISS: u(1<<31 - 6001), Close: "AB"})
+	add("zero-window-edge-crosses-2^32-reverse", tcpx.Scenario{Bytes: [2]int{0, 60000}, RcvBuf: [2]int{8192, 0}, PassiveISS: u(1<<32 - 12001), Close: "BA"})
 	// the same with receive buffers large enough for the stack to scale its own window
 	add("zero-window-scaled", tcpx.Scenario{Bytes: [2]int{400000, 0}, RcvBuf: [2]int{0, 100000}, PauseRead: [2]int{1, 0}, PauseMs: [2]int{3000, 0}, Close: "AB"})
 	add("zero-window-scaled-reverse", tcpx.Scenario{Bytes: [2]int{0, 700000}, RcvBuf: [2]int{262144, 0}, PauseRead: [2]int{0, 1}, PauseMs: [2]int{0, 2000}, MaxChunk: [2]int{0, 3000}, Close: "BA"})
